@@ -1046,6 +1046,8 @@ def run(ctx):
         refs = [None, list(range(l)), perm, sub[::-1], sub, list(range(l))[::-1]]
         if ctx.quick():
             refs = refs[:4] + [refs[4 + k % 2]]
+        # the same subsets written with from-the-end (negative) channel indices, alone and mixed with non-negative ones
+        refs += [[i - l for i in sub[::-1]], [0, -1] if l > 1 else [-1], [-1]]
         for ref in refs:
             for cls, method in ((SSIcov, "cov_mm"), (SSIcov, "cov_R"), (SSIdat, "dat")):
                 glue_case(ctx, cls, method, data, ref, br, inst_ok=inst[method])
